@@ -44,13 +44,17 @@ Proof.
         exists added. repeat split; try assumption.
         intros m Hm. destruct (A m Hm) as (e0 & I & X). exists e0. split; [right; exact I | exact X].
       * apply negb_false_iff in M.
-        destruct (maxMessageSize <? size + len (m_payload (e_msg e)) + len (m_id (e_msg e)) + len (m_chan (e_msg e))) eqn:Cap.
+        destruct (maxMessageSize <? len (m_payload (e_msg e)) + len (m_id (e_msg e)) + len (m_chan (e_msg e))) eqn:Own.
+        { destruct (IH ssid from until limit acc size) as (added & E & A & B & C). cbv zeta in E, B, C.
+          exists added. repeat split; try assumption.
+          intros m Hm. destruct (A m Hm) as (e0 & I & X). exists e0. split; [right; exact I | exact X]. }
+        destruct (maxMessageSize <? size + (len (m_payload (e_msg e)) + len (m_id (e_msg e)) + len (m_chan (e_msg e)))) eqn:Cap.
         -- exists []. rewrite app_nil_r. repeat split; try tauto.
            ++ intros m [].
            ++ unfold len. rewrite rev_length. tauto.
            ++ intros -> H. rewrite total_size_rev. exact H.
         -- destruct (IH ssid from until limit (e_msg e :: acc)
-                        (size + len (m_payload (e_msg e)) + len (m_id (e_msg e)) + len (m_chan (e_msg e))))
+                        (size + (len (m_payload (e_msg e)) + len (m_id (e_msg e)) + len (m_chan (e_msg e)))))
              as (added & E & A & B & C). cbv zeta in E, B, C.
            exists (e_msg e :: added). repeat split.
            ++ rewrite E. cbn [rev]. rewrite <- app_assoc. reflexivity.
